@@ -486,6 +486,85 @@ fn c01_jobs(tier: Tier) -> Vec<HybJob> {
     jobs
 }
 
+/// C16, hybrid tier: the value destructor, the event listener, the weighter and the admission filter of
+/// the hybrid cache probe the lock facade (`hyb::lock_probe`) in every execution.
+fn c16_judge(_: &HybJob, out: &RunOut) -> Vec<Complaint> {
+    let h = out.world.hist.lock().unwrap();
+    h.lock_held
+        .iter()
+        .map(|t| {
+            let clause = if t.starts_with("ValueDrop") {
+                "K.lock-held:ValueDrop(hybrid)"
+            } else if t.starts_with("Listener") {
+                "K.lock-held:Listener(hybrid)"
+            } else if t.starts_with("Weighter") {
+                "K.lock-held:Weighter(hybrid)"
+            } else {
+                "K.lock-held:AdmissionFilter(hybrid)"
+            };
+            (clause, t.clone())
+        })
+        .collect()
+}
+
+fn c16_jobs(tier: Tier) -> Vec<HybJob> {
+    let mut jobs = vec![];
+    let cfgs: Vec<HybCfg> = match tier {
+        Tier::Quick => vec![HybCfg::small(true, true), HybCfg::small(false, true)],
+        Tier::Thorough => {
+            let mut v = vec![];
+            for woi in [true, false] {
+                for tomb in [false, true] {
+                    v.push(HybCfg::small(woi, tomb));
+                }
+            }
+            let mut c = HybCfg::small(true, true);
+            c.flushers = 2;
+            v.push(c);
+            v
+        }
+    };
+    let opts = RunOpts {
+        final_reads: true,
+        final_restart: true,
+        universe: vec![1, 2],
+        ..Default::default()
+    };
+    use BasePolicy::*;
+    let plan: Vec<(BasePolicy, usize)> = match tier {
+        Tier::Quick => vec![(LazyIo, 0), (Eager, 0), (Alternate, 0)],
+        Tier::Thorough => vec![(LazyIo, 1), (Eager, 1), (Alternate, 1), (ClientFirst, 0)],
+    };
+    for cfg in cfgs.iter() {
+        let alpha = c01_alphabet(cfg, Tier::Quick);
+        for prog in sequences(&alpha, 3) {
+            if !has_write(&prog) {
+                continue;
+            }
+            for (policy, bound) in plan.iter() {
+                let mut o = opts.clone();
+                o.final_restart = !prog.iter().any(|x| matches!(x, HOp::Reopen));
+                jobs.push(HybJob { cfg: cfg.clone(), prog: prog.clone(), policy: *policy, opts: o, bound: *bound });
+            }
+        }
+    }
+    jobs
+}
+
+pub fn c16_hyb() -> HybProp {
+    HybProp {
+        id: "C16",
+        owned: vec!["K.", "X."],
+        jobs: c16_jobs,
+        judge: c16_judge,
+        rule: "Engine V with the lock facade as monitor: every program of up to 3 client calls over {insert small / 2-page / oversize, remove, get, get_or_fetch, fill (evict memory), wait, close+reopen, clear} on a real HybridCache (write-on-insertion and write-on-eviction, tombstone log on; thorough: + log off, 2 flushers) under the base schedules and deviation bounds given in the bounds; the value type's destructor, the event listener, the weighter and the admission filter check plshim::held_by_this_thread() == 0 at every invocation (memory tier, in-flight table, write-queue index, block index, flusher and reclaimer paths all go through the facade). Oracle: no callback runs while the calling thread holds a cache lock; every execution completes (no stall / self-deadlock panic).",
+        assumptions: vec!["keys are u64 (no key destructor in the hybrid harness; key destructors are probed on the memory tier by Engine S)", "std::sync::RwLock of the block manager is not part of the facade"],
+        level: "model_checking",
+        need_tiers: vec![1, 2],
+        max_execs_per_job: 5_000,
+    }
+}
+
 pub fn props() -> Vec<HybProp> {
     vec![HybProp {
         id: "C01",
